@@ -293,8 +293,27 @@ theorem attrSet_PA {n : Int} (c : Ctx) (a b : Nat) (v : Int) (h : PA n c) : Outc
     · exact AssocOK.sameT h (setAttTo_same _ _ _ _)
     · exact h
 
+theorem slotat_PA {n : Int} (c : Ctx) (x : Int) (h : PA n c) : PA n (slotat c x).2 := by
+  show AssocOK n _; rw [slotat_seg]; exact h
+
+theorem putGlyph_PA {n : Int} (c : Ctx) (k : Nat) (h : PA n c) : OutcomeP (PA n) (opPutGlyph c k) := by
+  unfold opPutGlyph
+  split
+  · exact AssocOK.updKeep h _ _ (fun _ => ⟨rfl, rfl, rfl⟩)
+  · trivial
+
+theorem putSubs_PA {n : Int} (c : Ctx) (r : Int) (i o : Nat) (h : PA n c) : OutcomeP (PA n) (opPutSubs c r i o) := by
+  unfold opPutSubs
+  simp only []
+  have h' := slotat_PA c r h
+  split
+  · split
+    · exact AssocOK.updKeep h' _ _ (fun _ => ⟨rfl, rfl, rfl⟩)
+    · trivial
+  · exact h'
+
 theorem ops_PA (n : Int) : OpsPreserve (PA n) :=
-  ⟨next_PA, insert_PA, delete_PA, putCopy_PA, assoc_PA, tempCopy_PA, attrSet_PA⟩
+  ⟨next_PA, insert_PA, delete_PA, putCopy_PA, assoc_PA, tempCopy_PA, attrSet_PA, putGlyph_PA, putSubs_PA, slotat_PA⟩
 
 theorem freeSlot_assoc {n : Int} (hn : 0 < n) {s : Seg} (h : AssocOK n s) (a : Nat) : AssocOK n (s.freeSlot a) := by
   unfold Seg.freeSlot
